@@ -981,7 +981,8 @@ where
                 .unwrap()
             });
         }
-        qmc.increase_cutoff_to(self.cutoff);
+        // Carry the cutoff over exactly (a fresh Qmc starts at cutoff = nvars, which may be larger).
+        qmc.set_cutoff(self.cutoff);
         qmc.set_manager(self.op_manager.unwrap());
         qmc
     }
